@@ -110,14 +110,13 @@ class HeadMonitor:
         ondisk = self.on_disk()
         ids = sorted(set(cells))
         first = ids[0]
-        allowed = {}
-        for c in self.cands:
-            nxt = min((k for k in ondisk if k > c), default=None)
-            allowed[c] = nxt
+        # a cursor the reader may continue from explains this chunk if the chunk starts after it and nothing that is on disk
+        # lies in between (the chunk itself may come from a file that was unlinked while the reader had it open)
+        matched = [c for c in self.cands if first > c and not any(c < k < first for k in ondisk)]
         bad = None
         if not whole_ok:
             bad = ('torn', f'the reader got a torn chunk {cells}')
-        elif first not in allowed.values():
+        elif not matched:
             if all(first <= c for c in self.cands):
                 bad = ('replay_before_saved_position',
                        f'record {first} delivered again although the restored position must be one of the cursors '
@@ -127,14 +126,13 @@ class HeadMonitor:
                 bad = ('skip', f'record {first} delivered while the reader should continue after one of the cursors '
                                f'{sorted(self.cands)}; on disk and never delivered: {miss} (C14_NoSkip)')
         else:
-            # inside the chunk: consecutive on disk
+            # inside the chunk: nothing that is on disk is left out
             want = [k for k in sorted(ondisk) if first <= k <= ids[-1]]
-            if want != ids:
+            if not set(want) <= set(ids):
                 bad = ('skip', f'chunk {ids} leaves out {sorted(set(want) - set(ids))} which are on disk (C14_NoSkip)')
         if bad:
             self.violations.append(('C14_NoSkip' if bad[0] != 'replay_before_saved_position' else 'C14_BoundedReplay',
                                     bad[1], {'kind': bad[0], 'crash_op': self.crash_op}))
-        matched = [c for c, n in allowed.items() if n == first]
         if len(self.cands) > 1 and matched:
             # the restart used this position; it is what the head file holds now
             self.committed = {matched[0]} if len(matched) == 1 else set(matched)
@@ -152,9 +150,9 @@ class WriterBroken(Exception):
 class HeadRun:
     """a real writer + a real reader with head file in one World"""
 
-    def __init__(self, world, fsz, tsz, slack=(0, 0)):
+    def __init__(self, world, fsz, tsz, slack=(0, 0), autoref=True):
         self.w = world
-        self.rp = H.Replayer(world, fsz, tsz, readers=(), autoref=(R,), slack=slack, autocreate=False)
+        self.rp = H.Replayer(world, fsz, tsz, readers=(), autoref=(R,) if autoref else (), slack=slack, autocreate=False)
         self.rp.readers = (R,)
         self.rp.objs[W] = self.rp._new(W)
         self.mon = HeadMonitor(world)
@@ -226,6 +224,9 @@ class HeadRun:
     def delete(self, ts):
         self.rp.do(('delete', 'env', ts, 0))
 
+    def refresh(self):
+        return self.rp.do(('refresh', R, 0, 0))
+
     # -- projection into HObs ------------------------------------------------------------------------------------------
     def _file(self, path):
         if not os.path.exists(path):
@@ -283,19 +284,20 @@ def parse_hemit(lines):
     return nodes
 
 
-def replay_head_path(path, nodes, mode, unit=8, step=1.0, slack=(0, 0), utc=True, corrupt=False, crash_at_end=False):
+def replay_head_path(path, nodes, mode, unit=8, step=1.0, slack=(0, 0), utc=True, corrupt=False, crash_at_end=False,
+                     autoref=True):
     """one label path of HeadFile.tla on the real code"""
     fsz, tsz = path[0][2], path[0][3]
     res = {'steps': 0, 'compared': 0, 'drift': None, 'violations': [], 'counts': {}, 'crashes': {}}
     with H.World(mode, unit, step, utc) as world:
-        hr = HeadRun(world, fsz, tsz, slack)
+        hr = HeadRun(world, fsz, tsz, slack, autoref=autoref)
         i = 1
         n = len(path)
         while i < n:
             a, o, x, y = path[i]
             out = None
             end = i + 1
-            if a in ('read', 'readblock', 's_open', 'crash') and not hr.up:
+            if a in ('read', 'readblock', 's_open', 'crash', 'refresh') and not hr.up:
                 if res['drift'] is None:
                     res['drift'] = (i, f'{path[i]}: the reader is not running in the real world')
                 break
@@ -332,6 +334,8 @@ def replay_head_path(path, nodes, mode, unit=8, step=1.0, slack=(0, 0), utc=True
                 res['crashes']['between'] = res['crashes'].get('between', 0) + 1
             elif a == 'restart':
                 hr.restart()
+            elif a == 'refresh':
+                hr.refresh()
             elif a == 'delete':
                 try:
                     hr.delete(x)
@@ -360,7 +364,8 @@ def replay_head_path(path, nodes, mode, unit=8, step=1.0, slack=(0, 0), utc=True
 
 
 def _replay_chunk(args):
-    lines, paths, modes, seed, corrupt = args
+    lines, paths, modes, seed, corrupt = args[:5]
+    autoref = args[5] if len(args) > 5 else True
     common.use_repo()
     nodes = parse_hemit(lines)
     agg = {'paths': 0, 'steps': 0, 'compared': 0, 'ndrift': 0, 'drift': [], 'viol': {}, 'counts': {}, 'crashes': {},
@@ -368,7 +373,7 @@ def _replay_chunk(args):
     for i, p in enumerate(paths):
         mode = modes[i % len(modes)]
         unit, step, slack, utc = c13._variant(i, seed)
-        r = replay_head_path(p, nodes, mode, unit, step, slack, utc, corrupt=corrupt)
+        r = replay_head_path(p, nodes, mode, unit, step, slack, utc, corrupt=corrupt, autoref=autoref)
         agg['paths'] += 1
         agg['steps'] += r['steps']
         agg['compared'] += r['compared']
@@ -380,7 +385,7 @@ def _replay_chunk(args):
         for (formula, text, sig) in r['violations']:
             key = json.dumps(sig, sort_keys=True)
             agg['viol'].setdefault(key, {'n': 0, 'text': text, 'sig': sig, 'formula': formula,
-                                         'witness': {'labels': p, 'mode': mode,
+                                         'witness': {'labels': p, 'mode': mode, 'autoref': autoref,
                                                      'render': {'unit': unit, 'step': step, 'slack': slack,
                                                                 'utc': utc}}})['n'] += 1
         for f in ('counts', 'crashes'):
@@ -389,7 +394,7 @@ def _replay_chunk(args):
     return agg
 
 
-def replay_cover(pool, lines, seed, sample, rng, corrupt=False):
+def replay_cover(pool, lines, seed, sample, rng, corrupt=False, autoref=True):
     prefixes = {p[:-1] for p in lines if len(p) > 1}
     maximal = sorted(p for p in lines if p not in prefixes and len(p) > 1)
     total = len(maximal)
@@ -405,7 +410,7 @@ def replay_cover(pool, lines, seed, sample, rng, corrupt=False):
             for k in range(2, len(p) + 1):
                 if p[:k] in lines:
                     need[p[:k]] = lines[p[:k]]
-        jobs.append((list(need.values()), ps, c13.LINE_MODES, seed, corrupt))
+        jobs.append((list(need.values()), ps, c13.LINE_MODES, seed, corrupt, autoref))
     agg = {'paths': 0, 'steps': 0, 'compared': 0, 'ndrift': 0, 'drift': [], 'viol': {}, 'counts': {}, 'crashes': {},
            'maximal_total': total, 'transitions': len(lines), 'cpaths': 0}
     for r in pool.map(_replay_chunk, jobs):
@@ -426,12 +431,22 @@ def replay_cover(pool, lines, seed, sample, rng, corrupt=False):
 # ---------------------------------------------------------------------------------------------------------------------
 # code -> spec: fault enumeration on reference histories
 
-def reference_history(seed, nops):
-    """ops of the reader side and the writer: ('w', size) | ('r',) | ('rb',) | ('save',)"""
-    rnd = random.Random(f'c14ref/{seed}')
+def reference_history(seed, nops, ex=False):
+    """ops of the reader side and the writer: ('w', size) | ('r',) | ('rb',) | ('save',); ex: the reader has no autorefresh
+    and the application calls ('refresh',) itself; ('del', 0 | 1): the file the reader is in / the oldest file is deleted
+    under the running reader"""
+    if ex and seed % 1000 == 500:
+        # scripted: the reader is in the middle of the oldest file when that file is deleted; refresh(); positions saved after it
+        return [('w', 1)] * 6 + [('refresh',), ('r',), ('del', 0), ('refresh',), ('r',), ('save',), ('w', 1), ('r',), ('save',), ('refresh',),
+                                 ('r',), ('rb',), ('save',), ('w', 2), ('refresh',), ('r',), ('save',)]
+    rnd = random.Random(f'c14ref/{seed}/{int(ex)}' if ex else f'c14ref/{seed}')
     ops = []
     for _ in range(nops):
-        ops.append(rnd.choice([('w', 1), ('w', 2), ('w', 1), ('r',), ('r',), ('r',), ('rb',), ('save',), ('save',)]))
+        if ex:
+            ops.append(rnd.choice([('w', 1), ('w', 2), ('w', 1), ('w', 1), ('r',), ('r',), ('r',), ('rb',), ('save',), ('save',),
+                                   ('refresh',), ('refresh',), ('del', 0), ('del', 1)]))
+        else:
+            ops.append(rnd.choice([('w', 1), ('w', 2), ('w', 1), ('r',), ('r',), ('r',), ('rb',), ('save',), ('save',)]))
     ops.append(('save',))
     return ops
 
@@ -441,8 +456,9 @@ def run_plan(args):
     operations', partial, delete_while_down).  Returns violations."""
     seed, nops, plan, mode, fsz, inplace = args[:6]
     record = len(args) > 6 and args[6]
+    ex = len(args) > 7 and args[7]
     common.use_repo()
-    ops = reference_history(seed, nops)
+    ops = reference_history(seed, nops, ex)
     plan = {p[0]: p for p in plan}
     unit, step, slack, utc = c13._variant(seed, len(plan))
     res = {'violations': [], 'counts': {}, 'crashes': 0, 'saves': 0, 'cycles': 0, 'steps': [], 'fsz': fsz,
@@ -477,7 +493,7 @@ def run_plan(args):
     with H.World(mode, unit, step, utc) as world:
         if inplace:
             _simulate_in_place(world)
-        hr = HeadRun(world, fsz, 10 ** 6, slack)
+        hr = HeadRun(world, fsz, 10 ** 6, slack, autoref=not ex)
         hr.restart()
         rec(('restart', R, 0, 0))
         for i, op in enumerate(ops):
@@ -490,6 +506,23 @@ def run_plan(args):
                 except WriterBroken:
                     hr.mon._c('writer_raised')
                     break
+                continue
+            if op[0] == 'refresh':
+                hr.refresh()
+                hr.mon._c('refresh')
+                rec(('refresh', R, 0, 0))
+                continue
+            if op[0] == 'del':
+                names = sorted(os.listdir(world.logs))
+                ob = hr.rp.objs[R]
+                cur = os.path.basename(ob.logfiles[ob.read_idx].path) if ob.read_idx < len(ob.logfiles) else None
+                victim = (cur if cur in names else None) if op[1] == 0 else (names[0] if names else None)
+                if victim is not None and victim != names[-1]:          # (not the file the writer is writing)
+                    mid = op[1] == 0 and ob.read_file not in (None, False) and ob.read_file.tell() > 0
+                    t = hr.rp.ts_of_name(victim)
+                    hr.delete(t)
+                    hr.mon._c('delete_under_reader_mid_file' if mid else 'delete_under_reader')
+                    rec(('delete', 'env', t, 0))
                 continue
             crashed = False
             if pl and (pl[1] == 0 or op[0] != 'save'):
@@ -519,11 +552,15 @@ def run_plan(args):
                 if not ok:
                     break
         if hr.up:                      # drain: everything still on disk must arrive
-            for _ in range(200):
-                out = hr.read(mode == 'bin')
-                rec(('readblock' if mode == 'bin' else 'read', R, 0, 0), out)
-                if out['ret'] is None and out['exc'] is None:
-                    break
+            for rnd_ in range(2 if ex else 1):
+                if ex:
+                    hr.refresh()
+                    rec(('refresh', R, 0, 0))
+                for _ in range(200):
+                    out = hr.read(mode == 'bin')
+                    rec(('readblock' if mode == 'bin' else 'read', R, 0, 0), out)
+                    if out['ret'] is None and out['exc'] is None:
+                        break
             ondisk = hr.mon.on_disk()
             left = sorted(k for k in ondisk if k not in hr.mon.delivered)
             if left:
@@ -562,13 +599,13 @@ def _simulate_in_place(world):   # noqa
     R_.os = OS2()
 
 
-def validate_head_traces(sd, traces, nw):
+def validate_head_traces(sd, traces, nw, cfg='TraceHeadFile'):
     import tempfile
     fd, path = tempfile.mkstemp(prefix='verif_c14trace_', suffix='.json')
     try:
         with os.fdopen(fd, 'w') as fh:
             json.dump(traces, fh)
-        res = run_tlc(sd.d, 'TraceHeadFile', 'TraceHeadFile', workers=nw, timeout=3000, deadlock=True,
+        res = run_tlc(sd.d, cfg, 'TraceHeadFile', workers=nw, timeout=3000, deadlock=True,
                       env={'VERIF_TRACE': path})
     finally:
         os.unlink(path)
@@ -583,9 +620,9 @@ def _last_tid(out, pick):
     return 'no trace in the TLC output'
 
 
-def enumerate_plans(seed, nops, cycles, rnd, budget):
+def enumerate_plans(seed, nops, cycles, rnd, budget, ex=False):
     """single crashes exhaustively; pairs / triples exhaustively if they fit the budget, else sampled"""
-    ops = reference_history(seed, nops)
+    ops = reference_history(seed, nops, ex)
     points = []
     for i, op in enumerate(ops):
         if op[0] == 'save':
@@ -637,6 +674,9 @@ def run(ctx):
         proof = tpool.submit(run_tlc, sd.d, f'HeadFile_{tier}', 'HeadFile', workers=nw, timeout=3000)
         cover_n = f'HeadFileCover_{tier}'
         cover = tpool.submit(run_tlc, sd.d, cover_n, 'HeadFileCover', workers=max(2, NCPU // 4), timeout=3000)
+        proofs_ex = [(n, tpool.submit(run_tlc, sd.d, n, 'HeadFile', workers=nw, timeout=3000))
+                     for n in ([f'HeadFile_{tier}_ex'] + ([] if ctx.quick else ['HeadFile_thorough_exa']))]
+        cover_ex = tpool.submit(run_tlc, sd.d, 'HeadFileCover_ex', 'HeadFileCover', workers=max(2, NCPU // 4), timeout=3000)
         vfuts = []
         for v in VARIANTS:
             n = sd.derive('HeadFileCover_quick', f'HeadFile_{v}', defects=[v], emit=False,
@@ -667,6 +707,23 @@ def run(ctx):
         if st['ndrift'] < st['cpaths'] or not st['cpaths']:
             raise MachineryError(f'self-test: only {st["ndrift"]} of {st["cpaths"]} corrupted expectations noticed')
         rep.extra['selftest_corrupted_expectations_rejected'] = f'{st["ndrift"]}/{st["cpaths"]}'
+        # ---- 2b. the same for a reader without autorefresh whose application calls refresh(), files deleted under it
+        resx = cover_ex.result()
+        if not resx.ok:
+            raise MachineryError(f'TLC failed on HeadFileCover_ex: {resx.error or resx.violated or "timeout"}')
+        rep.add_tlc('HeadFileCover_ex', resx, 'path cover (reader with autorefresh=False, explicit refresh(), deletion under '
+                                              'the running reader): one label path + projected target state per transition')
+        linesx = c13.split_emit(resx.out)
+        aggx = replay_cover(pool, linesx, ctx.seed, 4000 if ctx.quick else None, rnd, autoref=False)
+        rep.traces += aggx['paths']
+        rep.evaluations += aggx['paths']
+        rep.distinct |= {f'coverx:{i}' for i in range(aggx['paths'])}
+        for d in aggx['drift'][:3]:
+            rep.drift_note(f'HeadFileCover_ex: {d["mode"]} path {list(d["path"])}: {d["diff"]}')
+        rep.extra['cover_explicit_refresh'] = {k: aggx[k] for k in ('transitions', 'maximal_total', 'paths', 'steps', 'compared',
+                                                                    'ndrift', 'counts', 'crashes')}
+        for k, v in aggx['viol'].items():
+            allviol.setdefault(k, dict(v, where='spec->code replay (explicit refresh)'))
         # ---- 3. code -> spec: fault enumeration
         nref = 3 if ctx.quick else 12
         nops = 14 if ctx.quick else 18
@@ -694,6 +751,31 @@ def run(ctx):
                                                      'history': reference_history(job[0], job[1])}})['n'] += 1
         rep.traces += fe['runs']
         rep.extra['fault_enumeration'] = fe
+        # the same with a reader without autorefresh, refresh() called by the application and files deleted under the reader
+        jobsx = []
+        for h in range(2 if ctx.quick else 10):
+            seed = ctx.seed * 1000 + 500 + h
+            for pi, plan in enumerate([[]] + enumerate_plans(seed, nops + 8, 2, rnd, 100 if ctx.quick else 1500, ex=True)):
+                jobsx.append((seed, nops + 8, plan, H.MODES[(pi + h) % 4], (1, 2, 4)[(pi // 4 + h) % 3], False, False, True))
+        fx = {'runs': 0, 'crashes': 0, 'saves': 0, 'counts': {}}
+        for job, r in zip(jobsx, pool.map(run_plan, jobsx, chunksize=8)):
+            fx['runs'] += 1
+            fx['crashes'] += r['crashes']
+            fx['saves'] += r['saves']
+            for k, v in r['counts'].items():
+                fx['counts'][k] = fx['counts'].get(k, 0) + v
+            rep.case(('planx', job[0], tuple(job[2]), job[3]), nontrivial=r['crashes'] > 0)
+            for (formula, text, sig) in r['violations']:
+                key = json.dumps(dict(sig, explicit_refresh=True), sort_keys=True)
+                allviol.setdefault(key, {'n': 0, 'text': text, 'sig': sig, 'formula': formula,
+                                         'where': 'fault enumeration (explicit refresh, deletion under the reader)',
+                                         'witness': {'reference_seed': job[0], 'nops': job[1], 'plan': job[2],
+                                                     'mode': job[3], 'fsz': job[4], 'ex': True,
+                                                     'history': reference_history(job[0], job[1], True)}})['n'] += 1
+        rep.traces += fx['runs']
+        if not fx['counts'].get('delete_under_reader_mid_file') or not fx['counts'].get('refresh'):
+            raise MachineryError(f'the explicit-refresh histories never deleted the file the reader was in the middle of: {fx["counts"]}')
+        rep.extra['fault_enumeration_explicit_refresh'] = fx
         rep.sample({'reference_history': reference_history(ctx.seed * 1000, nops), 'one_plan': jobs[len(jobs) // 2][2],
                     'plan_format': '(op index, file-system operation of write_head at which the process dies '
                                    '[1 open, 2 write, 3 close, 4 rename, 5 after rename, 0 between reader operations], '
@@ -721,6 +803,26 @@ def run(ctx):
             rep.note(f'TLC reports {tres.violated} on a recorded real execution (see the violations)')
         else:
             rep.traces += len(traces)
+        pickx = [jobsx[k] for k in sorted(rnd.sample(range(len(jobsx)), min(ntr // 2, len(jobsx))))]
+        recsx = pool.map(run_plan, [j[:6] + (True, True) for j in pickx], chunksize=4)
+        tracesx = [{'fsz': r['fsz'], 'tsz': r['tsz'], 'steps': r['steps']} for r in recsx
+                   if r['steps'] and all(s_['l'][0] != 'unknown_fs_ops' for s_ in r['steps'])]
+        tresx, expectx = validate_head_traces(sd, tracesx, nw, cfg='TraceHeadFile_ex')
+        rep.add_tlc('TraceHeadFile_ex', tresx, f'{len(tracesx)} recorded executions (explicit refresh(), deletion under the running '
+                                               f'reader, crashes) validated against HeadFile.tla')
+        if tresx.error or tresx.timed_out:
+            raise MachineryError(f'TLC failed on TraceHeadFile_ex: {tresx.error or "timeout"}')
+        if tresx.violated == 'deadlock' or (not tresx.violated and tresx.distinct != expectx):
+            rep.drift_note(f'a recorded explicit-refresh execution is rejected by TraceHeadFile_ex '
+                           f'({tresx.distinct} of {expectx} states): {_last_tid(tresx.out, pickx)}')
+        elif tresx.violated:
+            if not allviol:
+                raise MachineryError(f'TLC reports {tresx.violated} on a recorded execution but the monitor found '
+                                     f'nothing\n{tresx.out[-3000:]}')
+            rep.note(f'TLC reports {tresx.violated} on a recorded real execution with explicit refresh (see the violations)')
+        else:
+            rep.traces += len(tracesx)
+        fx['traces_validated_by_tlc'] = len(tracesx)
         bad = json.loads(json.dumps(traces[:6]))
         for t in bad:
             cs = [s for s in t['steps'] if s['cmp'] == 1 and s['l'][0] == 'restart']
@@ -764,6 +866,11 @@ def run(ctx):
                 rep.extra.setdefault('design_variants', {})[v] = {
                     'tlc': r.violated, 'labels': [list(l) for l in cex],
                     'real_code': 'reproduces it' if got else 'does not reproduce it (the code does not have this design)'}
+        for n, fut in proofs_ex:
+            r = fut.result()
+            common.tlc_must_pass(r, n)
+            rep.add_tlc(n, r, 'Defects = {}: the C14 formulas with refresh() called by the application and files deleted under '
+                              'the running reader')
         r = proof.result()
         common.tlc_must_pass(r, f'HeadFile_{tier}')
         rep.add_tlc(f'HeadFile_{tier}', r, 'Defects = {}: temp file + rename satisfies the C14 formulas')
@@ -808,10 +915,11 @@ def replay(ctx):
     if 'labels' in wit:
         rd = wit.get('render', {})
         rr = replay_head_path(tuple(tuple(l) for l in wit['labels']), {}, wit['mode'], rd.get('unit', 8),
-                              rd.get('step', 1.0), tuple(rd.get('slack', (0, 0))), rd.get('utc', True))
+                              rd.get('step', 1.0), tuple(rd.get('slack', (0, 0))), rd.get('utc', True),
+                              autoref=wit.get('autoref', True))
     else:
         rr = run_plan((wit['reference_seed'], wit['nops'], [tuple(p) for p in wit['plan']], wit['mode'], wit['fsz'],
-                       False))
+                       False, False, bool(wit.get('ex'))))
     for v in rr['violations']:
         print('VIOLATION-REPRODUCED', v)
     return 1 if rr['violations'] else 0
